@@ -83,6 +83,44 @@ macro_rules! concrete_io {
         }
     };
 }
+/// the framed decoders (every CRC width, COBS) on the same hostile bytes: results are not compared
+/// (the checksum is almost never right), only totality and allocation are observed
+fn framed_all<T: serde::de::DeserializeOwned>(bytes: &[u8]) {
+    use postcard::de_flavors::crc as c;
+    let _ = c::from_bytes_u8::<T>(bytes, crc::Crc::<u8>::new(&crc::CRC_8_SMBUS).digest());
+    let _ = c::from_bytes_u16::<T>(bytes, crc::Crc::<u16>::new(&crc::CRC_16_XMODEM).digest());
+    let _ = c::take_from_bytes_u32::<T>(bytes, crc::Crc::<u32>::new(&crc::CRC_32_ISO_HDLC).digest());
+    let _ = postcard::from_bytes_crc32::<T>(bytes, crc::Crc::<u32>::new(&crc::CRC_32_ISO_HDLC).digest());
+    let _ = c::from_bytes_u64::<T>(bytes, crc::Crc::<u64>::new(&crc::CRC_64_XZ).digest());
+    let _ = c::take_from_bytes_u128::<T>(bytes, crc::Crc::<u128>::new(&crc::CRC_82_DARC).digest());
+    let mut copy = bytes.to_vec();
+    let _ = postcard::from_bytes_cobs::<T>(&mut copy);
+    let mut copy = bytes.to_vec();
+    let _ = postcard::take_from_bytes_cobs::<T>(&mut copy);
+}
+macro_rules! concrete_framed {
+    ($name:expr, $bytes:expr, $($n:literal => $t:ty, $k:expr);* $(;)?) => {
+        match $name {
+            $( $n => { framed_all::<$t>($bytes); Some($k) } )*
+            _ => None,
+        }
+    };
+}
+fn decode_concrete_framed(name: &str, bytes: &[u8]) -> Option<usize> {
+    concrete_framed!(name, bytes,
+        "vec_u8" => Vec<u8>, 16;
+        "vec_u64" => Vec<u64>, 64;
+        "vec_u128" => Vec<u128>, 128;
+        "string" => String, 16;
+        "vec_string" => Vec<String>, 256;
+        "vec_vec_u16" => Vec<Vec<u16>>, 256;
+        "vec_pair" => Vec<(u8, u32)>, 64;
+        "pair" => (Vec<u16>, String), 64;
+        "vec_opt" => Vec<Option<u64>>, 128;
+        "bytebuf" => (u8, Vec<u8>), 16;
+    )
+}
+
 /// the same concrete types through the reader path (owned types only)
 fn decode_concrete_io(name: &str, bytes: &[u8], scratch: &mut [u8]) -> Option<(Result<usize, &'static str>, usize)> {
     concrete_io!(name, bytes, scratch,
@@ -219,6 +257,19 @@ pub fn eval(ctx: &mut Ctx, op: &str, args: &[Sexp]) -> Option<String> {
             }
             if used_io > k * bytes.len() + 1024 {
                 ctx.oracle_fail(format!("reader path: decoding {} input bytes as {} allocated {} bytes (bound {} * len + 1024)", bytes.len(), name, used_io, k));
+            }
+            // the framed decoders (5 CRC widths incl. the crate-root crc32 wrapper, COBS) on the same bytes
+            ALLOC_LIMIT.store(ALLOCATED.load(Ordering::Relaxed) + (1 << 30), Ordering::Relaxed);
+            let before = ALLOCATED.load(Ordering::Relaxed);
+            let rf = guard(|| decode_concrete_framed(name, &bytes));
+            let used_f = ALLOCATED.load(Ordering::Relaxed) - before;
+            ALLOC_LIMIT.store(usize::MAX, Ordering::Relaxed);
+            if rf.is_err() {
+                return Some("FAIL panic while decoding through a CRC / COBS framed entry point".into());
+            }
+            // 8 decodes plus two copies of the input for the in-place COBS decoders
+            if used_f > 8 * (k * bytes.len() + 1024) + 2 * bytes.len() {
+                ctx.oracle_fail(format!("framed decoders: decoding {} input bytes as {} allocated {} bytes in 8 decodes (bound {} * len + 1024 each)", bytes.len(), name, used_f, k));
             }
             Some(match res {
                 Ok(rest) => format!("ok consumed={}", bytes.len() - rest),
